@@ -65,7 +65,7 @@ pub fn run(ctx: &mut Ctx) {
     }
     // reconnect with arbitrary bytes
     let mut srv = honest.server.clone();
-    for _ in 0..(if ctx.quick() { 2000 } else { 100_000 }) {
+    for _ in 0..(if ctx.quick() { 2000 } else { 1_000_000 }) {
         let cd: [u8; 16] = match rng.below(3) { 0 => [0; 16], 1 => [0xff; 16], _ => rng.arr() };
         let pf: [u8; 20] = match rng.below(3) { 0 => [0; 20], 1 => [0xff; 20], _ => rng.arr() };
         ctx.oracle_runs += 1;
@@ -101,7 +101,7 @@ pub fn run(ctx: &mut Ctx) {
     }
     ctx.sample("client_new with B = 3v mod N (forces S = 0) and verify_server_proof(00..00 / ff..ff / random); into_server with stored verifier 0 and A = N+1".to_string());
     // ---------------- world login + header byte storms, all three expansions ----------------
-    let storms = if ctx.quick() { 300 } else { 20_000 };
+    let storms = if ctx.quick() { 300 } else { 100_000 };
     for k in 0..storms {
         let key: [u8; 40] = match k % 4 { 0 => [0; 40], 1 => [0xff; 40], _ => rng.arr() };
         let un = ns("A");
